@@ -45,6 +45,7 @@ HOSTILE_FIXED = [
     "list", "dict", "str", "int", "id", "self", "Self", "datetime", "FooBAR", "fooBar", "foo_bar", "FOO", "éclair", "naïve", "日本", "ß",
     "_private", "__dunder__", "trailing_", "a  b", "a--b", "a..b", "x²", "٣", "a/b", "a+b", "a&b", "a:b", "a@b", "#hash",
     "ｓｅｌｆ", "ｃｌｉｅｎｔ", "ｃｌａｓｓ", "ｉｄ", "ﬁeld", "ｔｙｐｅ", "Ｎｏｎｅ", "ｕｒｌ", "Ⅷ", "ℂount",
+    "X-Discount-%", "100%", "a%b", "%s", "%(x)s", "a%20b", "{x}", "{0}", "a{b}c", "{{y}}", "$var", "${HOME}", "a!b", "a*b", "a^b", "a|b", "a~b", "a`b", "q?", "k=v", "a;b", "a,b", "<tag>", "(p)", "[i]", "a&amp;b",
     "UPPER_CASE", "mixedCase_with-all.kinds", "Über", "ναί", "x" * 60, "a1b2", "kebab-case-name", "print", "object", "property",
 ]
 
